@@ -287,7 +287,12 @@ def r3_necessary_variables(repo: Repo, rep):
         rep.saw(snv)
         for p in paths(snv.node, expand_self=False):
             v = p.attrs.get("self.necessary_variables")
-            rep.check(R, v is not None and dump(v) == "set()", snv.site(), snv.fq, "set_necessary_variables starts from a fresh set()", dump(v), dump(v))
+            va = snv.node.args.vararg.arg if snv.node.args.vararg else (snv.params[1] if len(snv.params) > 1 else "")
+            fresh = v is not None and (dump(v) == "set()" or (isinstance(v, ast.SetComp) and dump(v.generators[0].iter) == va and all("necessary_args" in dump(g.iter) for g in v.generators[1:])
+                                                             and not any(g.ifs for g in v.generators))
+                                       or (isinstance(v, ast.Call) and attr_chain(v.func) == "set" and len(v.args) == 1 and isinstance(v.args[0], (ast.GeneratorExp, ast.ListComp))
+                                           and dump(v.args[0].generators[0].iter) == va))
+            rep.check(R, fresh, snv.site(), snv.fq, "set_necessary_variables starts from a fresh set()", dump(v), dump(v))
             rep.check(R, p.ret is None, snv.site(), snv.fq, "set_necessary_variables returns nothing (its result must not be assigned)", dump(p.ret), dump(p.ret))
 
 
